@@ -62,6 +62,11 @@ type Opts struct {
 	// applied to many parsers (an Option "returns the previous setting as an
 	// Option": the values are meant to be kept and re-applied).
 	ReuseOptions bool `json:"reuse_options,omitempty"`
+	// Overridden: the option list starts with settings that later options of the
+	// same list replace (a program that appends its own options to a list of
+	// defaults): Recover(!x) ... Recover(x). The last one counts.
+	Overridden      bool   `json:"overridden,omitempty"`
+	OverriddenEntry string `json:"overridden_entry,omitempty"`
 }
 
 // ErrElem is one element of the error list as the glue sees it.
@@ -248,7 +253,11 @@ func (p *Parser) Exec(c *Call, cl *simrt.Client) *CallResult {
 	}
 	r.Events = ctx.Events
 	for _, in := range ctx.Injected {
-		r.Injected = append(r.Injected, InjectedInfo{in.Seq, in.Site, in.N, in.Kind, in.Msg})
+		msg := in.Msg
+		if in.Kind == "errlate" && in.Err != nil {
+			msg = in.Err.Error() // as the value reads now
+		}
+		r.Injected = append(r.Injected, InjectedInfo{in.Seq, in.Site, in.N, in.Kind, msg})
 	}
 	// the kernel's counter lives in globalStore and must equal the number of events
 	return r
